@@ -8,7 +8,7 @@ from props.common import reply_fmt, reply_fmt_list, guarded, canon_cells, canon_
 
 PROP = "C15"
 MODULES = ["Curtsies.Properties.C15"]
-RULE = ("every text of a 16-text pool x 12 run layouts (one run plain/formatted, shared fg, shared bg, non-shared bg, empty "
+RULE = ("every text of a 18-text pool (incl. combining / zero-width characters) x 13 run layouts (one run plain/formatted, shared fg, shared bg, non-shared bg, empty "
         "middle / leading / trailing run, one run per character with True/False styles, three runs sharing bg) x every "
         "method of a curated list of 46 str methods with an argument pool generated from the text (separators present, "
         "absent, adjacent, at the ends, multi-character, overlapping; regexes; widths below/at/above the length; fill "
@@ -48,12 +48,15 @@ def layouts_for(t):
         [(ch, {"fg": 31, "bold": i % 2 == 0}) for i, ch in enumerate(t)] or [("", {"fg": 31})],
         [(t[:1], {"bg": 44, "underline": True}), (t[1:m + 1], dict(B)), (t[m + 1:], {"bg": 44, "fg": 37, "invert": True})],
         [("", {"bg": 41}), (t[:m], {"bg": 41, "italic": True}), (t[m:], {"bg": 41, "italic": False})],
+        # one run per character, cycling three dicts that share only bg: a run of one zero-width character counts
+        [(ch, [{"fg": 31, "bg": 44}, {"fg": 34, "bg": 44}, {"bg": 44, "underline": True}][i % 3]) for i, ch in enumerate(t)]
+        or [("", {"bg": 44})],
     ]
     return out
 
 
 TEXTS = ["a,b,,c", ",a,", "ab", "", "a b  c", "l1\nl2\r\nl3\rl4\n", "x\n", "\n\nx", "Hello World", "  pad  ", "aXbXXc", "tab\there",
-         "ab\x0bc\x0cd\x1ce\x85f g h\x1di\x1ej", "aaa", "漢字 x", "\r\n\r"]
+         "ab\x0bc\x0cd\x1ce\x85f g h\x1di\x1ej", "aaa", "漢字 x", "\r\n\r", "e\u0301\u200bx", "\u0301a"]
 
 STR_METHODS = ["upper", "lower", "capitalize", "title", "swapcase", "casefold", "strip", "lstrip", "rstrip", "center", "zfill",
                "replace", "expandtabs", "removeprefix", "removesuffix"]
@@ -113,7 +116,7 @@ def mk_cases(ctx):
                     if not ctx.thorough and name not in NATIVE and li in (2, 8, 10) and len(t) > 4:
                         continue
                     cases.append(dict(m=name, args=list(args), f=f, lay=li))
-    ctx.exhaustive.append("%d texts x 12 layouts x %d methods x argument pool: %d cases" % (
+    ctx.exhaustive.append("%d texts x 13 layouts x %d methods x argument pool: %d cases" % (
         len(texts), len(NATIVE + STR_METHODS + LIST_METHODS + OTHER_METHODS), len(cases)))
     return cases
 
@@ -148,7 +151,12 @@ def enc_result(r):
 
 
 def impl(c):
-    return guarded(lambda: enc_result(call_real(c)))
+    try:
+        return guarded(lambda: enc_result(call_real(c)))
+    except wire.Unencodable as e:
+        return "unencodable:" + repr(e)
+    except Exception as e:  # noqa: BLE001 - observing the result failed
+        return "unobservable:%s:%s" % (type(e).__name__, e)
 
 
 def breaks_of(s):
@@ -227,7 +235,7 @@ def check_uniform(r, c, what):
     return None
 
 
-def oracle(c):
+def _oracle(c):
     name, args = c["m"], c["args"]
     s = "".join(t for t, _ in c["f"])
     cs = wire.cells_of_chunks(c["f"])
@@ -311,6 +319,14 @@ def oracle(c):
     if type(r) is not type(exp) or r != exp or isinstance(r, FmtStr):
         return "%s%r: answer %r, str gives %r" % (name, tuple(args), r, exp)
     return None
+
+
+def oracle(c):
+    """any exception while observing a result (.s, len, iteration, attributes) is a violation, never a crash"""
+    try:
+        return _oracle(c)
+    except Exception as e:  # noqa: BLE001
+        return "observing the result raised %s: %s" % (type(e).__name__, e)
 
 
 def footprint(c, what):
